@@ -16,6 +16,7 @@
 //
 // Answer of a logic op:  <res>|<runs>|<when>|<flags>
 //
+//	(the whole answer is `hang` when the mock clock or the scheduler did not come to rest, `skipped` after that)
 //	res    ok | ok:<LastScheduled passed to Schedule, seconds (after NewSchedule's alignment)> | err
 //	runs   Execute calls STARTED during the op, per id in call order, ids ascending:  id:scheduledForMs:runAtMs
 //	when   TreeScheduler.When() after the scheduler went quiescent, ms (or - for the zero time)
@@ -153,6 +154,7 @@ type quiet int
 const (
 	qIdle quiet = iota
 	qSpinning
+	qStuck // no quiescent state within the deadline
 )
 
 // waitQuiesce polls until the scheduler can make no further progress on its own:
@@ -162,7 +164,11 @@ func waitQuiesce(e *exec, nworkers int) quiet {
 	haveSnap := false
 	var snapIters uint64
 	var snapRuns int
+	deadline := time.Now().Add(5 * time.Second)
 	for i := 0; ; i++ {
+		if i%64 == 63 && time.Now().After(deadline) {
+			return qStuck
+		}
 		itPre := scheduler.VerifLoopIters.Load() // before the snapshot
 		loops, workers := schedStates()          // stop-the-world snapshot of goroutine states
 		ok := len(loops) == 1 && len(workers) == nworkers
@@ -204,10 +210,37 @@ func waitQuiesce(e *exec, nworkers int) quiet {
 var epoch = time.Unix(0, 0).UTC()
 
 type runner struct {
-	mock *clock.Mock
-	s    *scheduler.TreeScheduler
-	e    *exec
-	n    int
+	mock   *clock.Mock
+	s      *scheduler.TreeScheduler
+	e      *exec
+	n      int
+	wedged bool // a clock.Add did not return (or the scheduler never went quiescent): no further clock moves
+}
+
+// add moves the mock clock under a watchdog.  clock.Mock.Add loops for ever when the code under
+// test re-arms its timer in the past on every tick (the F8 shape before the repair).
+func (c *runner) add(d time.Duration) {
+	if c.wedged {
+		return
+	}
+	done := make(chan struct{})
+	go func() { c.mock.Add(d); close(done) }()
+	select {
+	case <-done:
+	case <-time.After(2 * time.Second):
+		c.wedged = true
+	}
+}
+
+func (c *runner) quiesce() quiet {
+	if c.wedged {
+		return qStuck
+	}
+	q := waitQuiesce(c.e, c.n)
+	if q == qStuck {
+		c.wedged = true
+	}
+	return q
 }
 
 func newCase() h.CaseRunner { return &runner{} }
@@ -220,7 +253,12 @@ func (c *runner) Close() {
 			delete(c.e.blocked, id)
 		}
 		c.e.mu.Unlock()
-		c.s.Stop()
+		stopped := make(chan struct{})
+		go func(s *scheduler.TreeScheduler) { s.Stop(); close(stopped) }(c.s)
+		select {
+		case <-stopped:
+		case <-time.After(3 * time.Second): // wedged scheduler: leave it behind
+		}
 		c.s = nil
 	}
 }
@@ -235,14 +273,13 @@ func ms(t time.Time) string {
 // settle lets the scheduler run to quiescence; expired mock timers only fire inside Add, so Add(0)
 // is repeated until a round produces no loop iteration.
 func (c *runner) settle() {
-	for round := 0; round < 200; round++ {
-		if waitQuiesce(c.e, c.n) == qSpinning {
+	for round := 0; round < 200 && !c.wedged; round++ {
+		if c.quiesce() != qIdle {
 			return
 		}
 		before := scheduler.VerifLoopIters.Load()
-		c.mock.Add(0)
-		q := waitQuiesce(c.e, c.n)
-		if q == qSpinning || scheduler.VerifLoopIters.Load() == before {
+		c.add(0)
+		if c.quiesce() != qIdle || scheduler.VerifLoopIters.Load() == before {
 			return
 		}
 	}
@@ -255,25 +292,28 @@ func (c *runner) settle() {
 // reported wake-up time (When()) to the next, waiting for quiescence after each step.
 func (c *runner) advance(d time.Duration) {
 	target := c.mock.Now().Add(d)
-	for i := 0; i < 100000; i++ {
+	for i := 0; i < 100000 && !c.wedged; i++ {
 		c.settle()
-		if waitQuiesce(c.e, c.n) == qSpinning {
+		if c.quiesce() != qIdle {
 			break
 		}
 		w, now := c.s.When(), c.mock.Now()
 		if !w.IsZero() && w.After(now) && !w.After(target) {
-			c.mock.Add(w.Sub(now))
+			c.add(w.Sub(now))
 			continue
 		}
 		break
 	}
 	if now := c.mock.Now(); target.After(now) {
-		c.mock.Add(target.Sub(now))
+		c.add(target.Sub(now))
 	}
 }
 
 func (c *runner) observe(res string) string {
 	c.settle()
+	if c.wedged {
+		return "hang"
+	}
 	c.e.mu.Lock()
 	st := c.e.started
 	c.e.started = nil
@@ -334,6 +374,9 @@ func (c *runner) Op(t []string) string {
 	}
 	if c.s == nil {
 		return bad
+	}
+	if c.wedged {
+		return "skipped"
 	}
 	switch t[0] {
 	case "sched":
